@@ -1396,7 +1396,7 @@ def run(ctx):
         run_rsa(ctx, eng, cases, meta, rsa_cache)
         run_server(ctx, cases, meta, rsa_cache)
         ctx.log('built %d Coq cases' % len(cases))
-        bad = ctx.run_cases('plans', HEADER, cases, 'check_ccase', what='outcome class + observed primitive call vs Crypto/Plan.v')
+        bad = ctx.run_cases('plans', HEADER, cases, 'check_ccase', shard=600, what='outcome class + observed primitive call vs Crypto/Plan.v')
         for i in bad[:20]:
             ctx.disagreement('plans', {'case': meta[i], 'coq': cases[i][:600]})
         for i in (0, len(cases) // 2):
